@@ -33,7 +33,8 @@ from common import case, case_to_json, coq_bytes, coq_lit  # noqa: E402
 import c16ref as R  # noqa: E402
 
 ID = "C16"
-MAKE_TARGETS = ["Props/C16.v"]
+MAKE_TARGETS = ["Props/C16.v", "Props/C16Sat.v"]
+ASSUMPTION_FILES = ["Props/C16Sat.v"]   # sat_exact closed through Flocq: classical-reals axioms of the standard library
 GEN_TABLES = []
 CASE_TIMEOUT = 120.0
 FILLER = {"filler"}
